@@ -1,4 +1,4 @@
-import Holpy.C07.TypeText
+import Holpy.C07.Text
 import Holpy.C07.SeqModel
 /-
 C07 — the TEXT `print_thm` writes: hypotheses joined by ", ", a blank, the turnstile, a blank, the
@@ -8,12 +8,12 @@ namespace Holpy.C07
 
 def printHypsMoreText (T : Table) (L : Ladder) (S : List (List Nat)) (Q : SeqSyms) (uni : Bool) : List Skel → List Nat
   | [] => []
-  | h :: hs => symTxt S Q.comma ++ 32 :: (printText T L uni h ++ printHypsMoreText T L S Q uni hs)
+  | h :: hs => symTxt S Q.comma ++ 32 :: (printText T L S uni h ++ printHypsMoreText T L S Q uni hs)
 
 def printThmText (T : Table) (L : Ladder) (S : List (List Nat)) (Q : SeqSyms) (uni : Bool) (hyps : List Skel) (concl : Skel) : List Nat :=
   match hyps with
-  | [] => symTxt S (Q.turn uni) ++ 32 :: printText T L uni concl
-  | h :: hs => printText T L uni h ++ (printHypsMoreText T L S Q uni hs ++ 32 :: (symTxt S (Q.turn uni) ++ 32 :: printText T L uni concl))
+  | [] => symTxt S (Q.turn uni) ++ 32 :: printText T L S uni concl
+  | h :: hs => printText T L S uni h ++ (printHypsMoreText T L S Q uni hs ++ 32 :: (symTxt S (Q.turn uni) ++ 32 :: printText T L S uni concl))
 
 /-- the separators are string terminals read as their own symbols; the comma is spelled "," -/
 abbrev SeqTextOK (Q : SeqSyms) (S : List (List Nat)) : Prop :=
